@@ -353,6 +353,7 @@ func describe(s *Scenario) string {
 func judge(c *vlib.Check, scs []*Scenario, kids []*child, st *tlcStats) {
 	byClass := map[string]int{}
 	var live []*Scenario
+	var gates []map[string]any
 	crashes := 0
 	for _, s := range scs {
 		c.AddEvals(1)
@@ -361,6 +362,27 @@ func judge(c *vlib.Check, scs []*Scenario, kids []*child, st *tlcStats) {
 		for _, d := range s.Direct {
 			kv := strings.SplitN(d, "|", 2)
 			c.Violate(kv[0], kv[1]+"\n"+describe(s), s)
+		}
+		if g := s.Gate; s.Hold != "" && g != nil {
+			gates = append(gates, map[string]any{"hold": s.Hold, "interval_ns": s.IntervalNs, "held": g.Held, "other_write_entered_while_held": g.Met,
+				"overlaps": g.Overlaps, "after_return": g.AfterReturn})
+			var ov []string
+			for _, o := range g.Overlaps {
+				if strings.Contains(o, "ping") {
+					ov = append(ov, o)
+				}
+			}
+			if len(ov) > 0 {
+				c.Violate(keyRaceWrite, fmt.Sprintf("gate writer (hold=%s): while one goroutine's call on the ResponseWriter was in progress another one entered (in progress|entering): %v - TLC's counterexample to NoRace / NoSplice replayed deterministically\n%s", s.Hold, ov, describe(s)), s)
+			}
+			if len(g.AfterReturn) > 0 {
+				c.Violate(keyRaceFinish, fmt.Sprintf("gate writer (hold=%s): after transport.SSE.Do had returned the ResponseWriter was still used: %v - TLC's counterexample to CompleteLast / NoUseAfterFinish replayed deterministically\n%s", s.Hold, g.AfterReturn, describe(s)), s)
+			}
+			if s.Hold != "return" && !g.Held && !s.Crashed {
+				vlib.Infra("gate scenario %s never reached the call it was to hold (%s)", s.ID, s.Hold)
+			}
+		} else if s.Hold != "" && !s.Crashed {
+			vlib.Infra("gate scenario %s returned no gate observation", s.ID)
 		}
 		if s.Crashed {
 			crashes++
@@ -378,6 +400,7 @@ func judge(c *vlib.Check, scs []*Scenario, kids []*child, st *tlcStats) {
 	}
 	c.Set("streams_by_class", byClass)
 	c.Set("server_crashes", crashes)
+	c.Set("gate_replays", gates)
 
 	// TLC: strict first, then the deviation-tolerant configurations
 	strict := accepted(live, true, true, "strict", st)
